@@ -183,6 +183,56 @@ fn span_pos_eq_hash() {
     cover!(!same && a.as_str().len() == b.as_str().len(), "equal length, different place");
 }
 
+/// Rule structs with public fields: == is (content, span) field-wise and hash agrees; leaves that carry text.
+fn rule_struct_eq_hash() {
+    use pest_typed::predefined_node::Skipped;
+    type Inner = Seq2<Skipped<Abs<0, 1>, AbsSkip<3>, 1>, Skipped<Abs<1, 2>, AbsSkip<3>, 1>>;
+    let mk = |a: usize, b: usize, sk: usize| -> Inner {
+        Seq2::from((
+            Skipped { skipped: [AbsSkip::<3> { n: 0 }], matched: Abs::<0, 1> { start: a, end: b } },
+            Skipped { skipped: [AbsSkip::<3> { n: sk }], matched: Abs::<1, 2> { start: b + sk, end: b + sk } },
+        ))
+    };
+    let (a0, a1, ak, b0, b1, bk) = (nd::usize(), nd::usize(), nd::usize(), nd::usize(), nd::usize(), nd::usize());
+    nd::assume(a0 <= a1 && a1 <= 3 && ak <= 3 && b0 <= b1 && b1 <= 3 && bk <= 3);
+    let (sa0, sa1, sb0, sb1) = (nd::usize(), nd::usize(), nd::usize(), nd::usize());
+    let (sa, sb) = (Span::new(XXX, sa0, sa1), Span::new(XXX, sb0, sb1));
+    nd::assume(sa.is_some() && sb.is_some());
+    let x = rules::normal::<'_, 1> { content: mk(a0, a1, ak), span: sa.unwrap() };
+    let y = rules::normal::<'_, 1> { content: mk(b0, b1, bk), span: sb.unwrap() };
+    let same_content = a0 == b0 && a1 == b1 && ak == bk;
+    let same_span = sa0 == sb0 && sa1 == sb1;
+    assert!((x == y) == (same_content && same_span), "rule struct == is not (content and span)");
+    if x == y {
+        assert!(same_stream(&stream(&x), &stream(&y)), "equal rule structs hash differently");
+    }
+    let cx = rules::non_atomic::<'_, 1> { content: mk(a0, a1, ak), span: sa.unwrap() };
+    let cy = rules::non_atomic::<'_, 1> { content: mk(b0, b1, bk), span: sb.unwrap() };
+    assert!((cx == cy) == (same_content && same_span), "non-atomic rule struct == is not (content and span)");
+    let bx = rules::normal_boxed::<'_, 1> { content: Box::new(mk(a0, a1, ak)), span: sa.unwrap() };
+    let by = rules::normal_boxed::<'_, 1> { content: Box::new(mk(b0, b1, bk)), span: sb.unwrap() };
+    assert!((bx == by) == (same_content && same_span), "boxed rule struct == is not (content and span)");
+    cover!(same_span && !same_content, "same span, different content");
+    cover!(same_content && !same_span, "same content, different span");
+    core::mem::forget(bx);
+    core::mem::forget(by);
+}
+fn insens_eq_hash() {
+    let buf = nd::ascii_buf::<4>(b"abA");
+    let s = nd::as_str(&buf);
+    let a = Insens::<'_, AB>::from(&s[0..2]);
+    let b = Insens::<'_, AB>::from(&s[2..4]);
+    let same_text = buf[0] == buf[2] && buf[1] == buf[3];
+    assert!((a == b) == same_text, "Insens == does not compare the matched text");
+    if a == b {
+        assert!(same_stream(&stream(&a), &stream(&b)), "equal Insens nodes (same spelling at different offsets) hash differently");
+    }
+    let c = CharRange::<'a', 'z'> { content: buf[0] as char };
+    let d = CharRange::<'a', 'z'> { content: buf[1] as char };
+    assert!((c == d) == (buf[0] == buf[1]) && (same_stream(&stream(&c), &stream(&d)) == (buf[0] == buf[1])));
+    cover!(same_text, "same spelling at different offsets");
+}
+
 /// Parsing the same input twice (second time with a *used* tracker, after an unrelated parse) gives equal
 /// values with equal hash streams; results from different positions are equal exactly when structurally identical.
 macro_rules! reparse {
@@ -244,6 +294,8 @@ harnesses! {
     #[kani::unwind(42)] fn c18_choice3() [] : "Q|Choice3: == same alternative and content; hash feeds the alternative" { choice3_eq_hash() }
     #[kani::unwind(42)] fn c18_wrappers() [] : "Q|Skipped / Push / Positive: ==/hash/clone field-wise" { wrappers_eq_hash() }
     #[kani::unwind(42)] fn c18_span_position() [] : "Q|Span / Position of one input object: ==/hash exactly on offsets; all sub-ranges of a 3-byte string" { span_pos_eq_hash() }
+    #[kani::unwind(42)] fn c18_rule_struct() [] : "Q|normal / non-atomic / boxed rule structs built from public fields: == exactly (content and span), equal values hash equally" { rule_struct_eq_hash() }
+    #[kani::unwind(42)] fn c18_insens_range() [] : "Q|Insens: == on the matched text, equal spellings at different offsets hash equally; CharRange == / hash on the character" { insens_eq_hash() }
     #[kani::unwind(42)] fn c18_reparse_normal() [T0 S] : "Q|normal rule: parsing the same input again (used tracker, unrelated parse in between) gives an equal tree with an equal hash stream; clone; abstract children, 3 positions" { reparse_normal() }
     #[kani::unwind(42)] fn c18_reparse_silent() [T0 S] : "Q|silent rule: same" { reparse_silent() }
     #[kani::unwind(42)] fn c18_reparse_atomic() [T0 S] : "Q|atomic rule: same" { reparse_atomic() }
